@@ -78,11 +78,11 @@ Proof. exact process_clause_join_disjoint. Qed.
 Print Assumptions C10_join_range_unreachable.
 
 (* ---- the composition over whole patterns.  D10 (boolean; Domain.d10_clause, Domain.D10) = D3 of C03 with OPTIONAL allowed:
-     environment: store compares predicate kinds, literal.Parse rejects unknown types, repairs F9, F14, Foid, F24 in;
+     environment: store compares predicate kinds, literal.Parse rejects unknown types, repairs F9, F14, Foid, F24, F25 in;
      graphs without key-duplicates; output bindings pairwise different;
      at least one clause, the first not OPTIONAL (the grammar guarantees it), every clause - OPTIONAL or not, sharing 0, 1 or more
        bindings with the rows built so far - not fully specified, no interval / bound binding, no ID alias on the object, an id only
-       with an anchor binding, pairwise different binding names inside the clause, at least one binding.
+       with an anchor binding, at least one binding (binding names may repeat inside a clause).
    On D10 the planner's result is the specification's sequence of steps (spec_step: conjunctive step for a plain clause, left outer
    join with NULL extension for an OPTIONAL one), row by row, cells up to the zone in which an instant is written. *)
 Theorem C10_select_is_left_join_partial :
